@@ -108,8 +108,11 @@ Lemma keeps_pop_file : keeps pop_file.
 Proof. intros s. unfold pop_file. destruct (s_trace s); reflexivity. Qed.
 Lemma keeps_next_anonymous : keeps next_anonymous. Proof. apply keeps_upd; reflexivity. Qed.
 
+Lemma keeps_add_defset : forall l, keeps (add_defset l).
+Proof. intros l s. unfold add_defset; simpl. now rewrite scopes_add_pos. Qed.
 #[export] Hint Resolve keeps_ret keeps_none keeps_lift keeps_get keeps_bad keeps_here keeps_state keeps_error
   keeps_err keeps_emit keeps_leaf_of keeps_add_reference keeps_add_record keeps_add_anonymous_def keeps_add_leaf
+  keeps_add_defset
   keeps_add_leaf_nopos keeps_add_multiclass keeps_record_mut keeps_multiclass_mut keeps_push_file keeps_pop_file
   keeps_next_anonymous : keeps.
 
@@ -236,7 +239,7 @@ Lemma grows_index_defvar : forall n i v, grows (index_defvar n i v).
 Proof.
   intros. unfold index_defvar.
   apply grows_bind; [apply keeps_grows; auto with keeps|]. intros loc.
-  apply grows_bind; [apply keeps_grows; auto with keeps|]. intros t.
+  apply grows_bind; [apply keeps_grows, keeps_try; auto with keeps|]. intros t.
   apply scopes_add_variable_grows.
 Qed.
 
